@@ -311,6 +311,20 @@ def purgeFilter (t : Tree) (win : Id) : List Req → Out (List Req)
     let rest' ← purgeFilter t win rest
     pure (if inside then rest' else r :: rest')
 
+/-- Replace the queue of requests. -/
+def setChanges (t : Tree) (cs : List Req) : Tree := { t with root := { t.root with changes := cs } }
+
+/-- `root->drag_source_window = NULL`. -/
+def clearDrag (t : Tree) : Tree := { t with root := { t.root with dragSource := none } }
+
+/-- `for(w = root->drag_source_window; w; w = w->parent) if(w == win) { root->drag_source_window = NULL; break; }` -/
+def forgetDrag (t : Tree) (win : Id) : Out Tree :=
+  match t.root.dragSource with
+  | some src => do
+    let inside ← within t (chainFuel t) src win
+    pure (if inside then clearDrag t else t)
+  | none => pure t
+
 /-- `_purge_hierarchy_changes`. -/
 def purge (cfg : Cfg) (t : Tree) (win : Id) : Out Tree :=
   if cfg.closePurges then do
@@ -318,17 +332,16 @@ def purge (cfg : Cfg) (t : Tree) (win : Id) : Out Tree :=
     | none => pure t
     | some _ => do
       let cs ← purgeFilter t win t.root.changes
-      let t := { t with root := { t.root with changes := cs } }
-      if cfg.dragForgottenOnClose then
-        match t.root.dragSource with
-        | some src => do
-          let inside ← within t (chainFuel t) src win
-          pure (if inside then { t with root := { t.root with dragSource := none } } else t)
-        | none => pure t
-      else pure t
+      let t := setChanges t cs
+      if cfg.dragForgottenOnClose then forgetDrag t win else pure t
   else do
     let _ ← getRootA t (chainFuel t) win
-    pure { t with root := { t.root with changes := t.root.changes.filter (fun r => r.parent ≠ win ∧ r.win ≠ win) } }
+    pure (setChanges t (t.root.changes.filter (fun r => r.parent ≠ win ∧ r.win ≠ win)))
+
+/-- The kinds of change `tickit_window_raise/raise_to_front/lower/lower_to_back` queue. -/
+def isRestack : Change → Bool
+  | .raise | .raiseFront | .lower | .lowerBack => true
+  | _ => false
 
 /-- `_request_hierarchy_change`. -/
 def request (t : Tree) (change : Change) (win : Id) : Out Tree := do
@@ -649,7 +662,7 @@ def simpleOp (cfg : Cfg) (st : St) (a : Act) (self : Option (Id × Int)) : Optio
   | .ref w => if heldW st w then
       some (refW (setX st w { getX st w with appRefs := (getX st w).appRefs + 1 }) w) else none
   | .close w => if heldW st w then some (liftT st (closeT cfg st.tree w)) else none
-  | .restack c w => if usableW st w then some (liftT st (request st.tree c w)) else none
+  | .restack c w => if usableW st w && isRestack c then some (liftT st (request st.tree c w)) else none
   | .hide w => if usableW st w then some (liftT st (hideT st.tree w)) else none
   | .«show» w => if usableW st w then some (liftT st (showT st.tree w)) else none
   | .flush => if heldW st 0 then some (liftT st (flushT st.tree)) else none
